@@ -31,14 +31,14 @@ SETS = {   # programs and bindings chosen so that every thread's solo result dif
 }
 SHAPES = {   # (threads, evaluations per thread, warm parser, context-switch bound)
     "quick": [(2, 1, False, 4)],
-    "thorough": [(2, 1, False, 4), (2, 2, False, 5), (3, 2, False, 5), (4, 1, True, 5)],
+    "thorough": [(2, 1, False, 4), (2, 2, False, 5), (3, 2, False, 5), (4, 1, True, 6)],
 }
 BOUNDS = {
     "quick": {"threads": 2, "evaluations per thread": 1, "context switches": "<= 4, at traced-line boundaries",
-              "workloads": sorted(SETS), "runners": ["interp", "compiled"],
+              "workloads": sorted(SETS), "runners": ["interp", "compiled", "mixed (compiled+interp, interp+compiled) for arith, logic"],
               "initial state": "parser singleton cleared (every thread may build it); recursion limit 1000 (Python's default)"},
-    "thorough": {"threads": "2, 3, 4", "evaluations per thread": "1 or 2", "context switches": "<= 4 / 5",
-                 "workloads": sorted(SETS), "runners": ["interp", "compiled"],
+    "thorough": {"threads": "2, 3, 4", "evaluations per thread": "1 or 2", "context switches": "<= 4 / 5 / 6 (4 threads)",
+                 "workloads": sorted(SETS), "runners": ["interp", "compiled", "mixed (alternating per thread) for arith, logic"],
                  "initial state": "parser singleton cleared; for 4 threads: already built by an earlier Environment; "
                                   "recursion limit 1000 (Python's default) in every scenario"},
 }
@@ -59,7 +59,8 @@ OUTSIDE = [
     "benign); other process-wide setters (os.environ, warnings filters, signal, ...) are not tracked; receivers computed otherwise (counted in evidence as unresolved), "
     "C-level state (re / functools caches, logging) and everything inside Lark are not modelled",
     "objects reachable only from a thread's own Environment / program / bindings are assumed thread-local (that is the "
-    "documented contract); all threads of a scenario use the same runner class (parser specialisation is C05)",
+    "documented contract); the threads of a scenario use one runner class, or alternate between the two (mixed scenarios: "
+    "each thread builds its Environment - and thereby selects the shared parser - inside the thread)",
     "the interpreter's implicit reads of the recursion limit (on every call) are not byte-code events: when some "
     "workload touches the limit explicitly, each thread gets ONE synthetic read per stretch between its explicit accesses, "
     "at the stretch's deepest stack point; what a foreign write does to a thread is visible only through the replayed "
@@ -87,9 +88,13 @@ TRUSTED = ["z3 5.1", "CPython 3.12 sys.monitoring, dis, threading", "vf.sched (e
 WITNESS_OB = "C16/{runner}/result-differs-under-schedule"
 
 
+MIXED = ("compiled+interp", "interp+compiled")     # thread t uses the (t mod 2)-th runner class
+MIXED_SETS = ("arith", "logic")
+
+
 def tasks(tier):
     return [{"runner": r, "set": s, "threads": n, "evals": k, "warm": w, "switches": p}
-            for (n, k, w, p) in SHAPES[tier] for s in SETS for r in ("interp", "compiled")]
+            for (n, k, w, p) in SHAPES[tier] for s in SETS for r in ("interp", "compiled") + (MIXED if s in MIXED_SETS else ())]
 
 
 def norm(site):
